@@ -106,6 +106,22 @@ def run(ctx, case):
             ctx.violate("C13", "c13.algebra", "raises", f"{type(e).__name__}: {e}", dict(a=r, b=r2), dict(game=game))
     # ---- write of the rated chart ----------------------------------------
     write_back(ctx, x, y, r, game)
+    if ctx.cur_k is not None and ctx.cur_k % 3 == 0:
+        # the same chart edited in place (same lengths) and rated again by the same factor, then by another
+        with ctx.quiet():
+            try:
+                for m in maps_of(x):
+                    for lst in m.objs.values():
+                        if len(lst):
+                            lst.offset = lst.offset.to_numpy()[::-1] + 250.0
+            except Exception:
+                ctx.counters["c13|edit_failed"] += 1
+                return
+        for q in (r, r2):
+            try:
+                x.rate(q)
+            except Exception:
+                pass
 
 
 def maps_of(o):
